@@ -858,6 +858,8 @@ static Node *declaration(Token **rest, Token *tok, Type *basety, VarAttr *attr) 
 
     if (attr && attr->is_static) {
       // static local variable
+      if (ty->kind == TY_VLA)
+        error_tok(ty->name, "variable length array with static storage duration");
       Obj *var = new_anon_gvar(ty);
       if (attr->align)
         var->align = attr->align;
